@@ -313,6 +313,10 @@ class TransformChain(ComposableTransform):
         transform : :map:`ComposableTransform`
             Transform to be applied **after** ``self``
         """
+        if transform is self:
+            # composing a chain with itself: snapshot the chain as it is now,
+            # otherwise the list would contain itself
+            transform = self.copy()
         self.transforms.append(transform)
 
     def _compose_after_inplace(self, transform):
@@ -325,4 +329,8 @@ class TransformChain(ComposableTransform):
         transform : :map:`ComposableTransform`
             Transform to be applied **before** ``self``
         """
+        if transform is self:
+            # composing a chain with itself: snapshot the chain as it is now,
+            # otherwise the list would contain itself
+            transform = self.copy()
         self.transforms.insert(0, transform)
